@@ -71,6 +71,7 @@ def explore_template(name: str, ttext: str, files: Dict[str, str], render: bool,
                 ("go", z.mod("bitproto.renderer.impls.go.renderer").RendererGo, False), ("py", z.mod("bitproto.renderer.impls.py.renderer").RendererPy, False)]
     with Scratch() as sc:
         for fn, txt in files.items():
+            os.makedirs(os.path.dirname(sc.path(fn)), exist_ok=True)
             with open(sc.path(fn), "w") as f:
                 f.write(txt)
         main = sc.path(MAIN)
@@ -143,6 +144,7 @@ def cli_hangs(files: Dict[str, str], main: str) -> bool:
 
     with Scratch() as sc:
         for fn, txt in files.items():
+            os.makedirs(os.path.dirname(sc.path(fn)), exist_ok=True)
             with open(sc.path(fn), "w") as f:
                 f.write(txt)
         os.makedirs(sc.path("out"), exist_ok=True)
